@@ -96,8 +96,29 @@ func (w *z15World) call(method, path string, body any) (int, string) {
 	return rec.Code, rec.Body.String()
 }
 
+// callGone is call with a client that may go away at any point: its request context is cancelled by a
+// separate thread, the handler keeps running until it returns (as under net/http).
+func (w *z15World) callGone(method, path string, body any) (int, string) {
+	var rd io.Reader
+	if body != nil {
+		b, _ := json.Marshal(body)
+		rd = bytes.NewReader(b)
+	}
+	ctx, cancel := mcrt.WithCancel(gocontext.Background())
+	mcrt.GoNamed("client", func() {
+		mcrt.Yield("client goes away")
+		mcrt.Observe("client gone")
+		cancel()
+	})
+	req := httptest.NewRequest(method, path, rd).WithContext(ctx)
+	rec := httptest.NewRecorder()
+	w.h.ServeHTTP(rec, req)
+	cancel()
+	return rec.Code, rec.Body.String()
+}
+
 type z15Req struct {
-	Kind string `json:"kind"` // generate, chat, embed, unload, ps, tags, show, create, copy, delete, blob
+	Kind string `json:"kind"` // generate, chat, embed, unload, ps, tags, show, create, copy, delete, pull, push (-gone: the client goes away)
 	A    string `json:"a,omitempty"`
 	B    string `json:"b,omitempty"`
 }
@@ -158,6 +179,12 @@ func (w *z15World) do(q z15Req) {
 		code, body = w.call("DELETE", "/api/delete", api.DeleteRequest{Model: q.A})
 	case "pull":
 		code, body = w.call("POST", "/api/pull", api.PullRequest{Model: ztName, Stream: &z15Stream})
+	case "pull-gone":
+		code, body = w.callGone("POST", "/api/pull", api.PullRequest{Model: ztName, Stream: &z15Stream})
+	case "push":
+		code, body = w.call("POST", "/api/push", api.PushRequest{Model: q.A, Stream: &z15Stream})
+	case "push-gone":
+		code, body = w.callGone("POST", "/api/push", api.PushRequest{Model: q.A, Stream: &z15Stream})
 	default:
 		panic("bad request kind " + q.Kind)
 	}
@@ -177,6 +204,8 @@ type z15Scenario struct {
 	Loaded []string          `json:"loaded,omitempty"` // models with a runner already loaded when the requests start
 	Reqs   []z15Req          `json:"reqs"`
 	Cap    int               `json:"quick_total_cap,omitempty"`
+	// Redirect: the fake registry redirects upload parts to its CDN (parts then go up in parallel)
+	Redirect bool `json:"redirect,omitempty"`
 }
 
 func z15Body(sc z15Scenario) func() {
@@ -238,6 +267,16 @@ func z15Body(sc z15Scenario) func() {
 		}
 		w.publish("lib/model:tag", []int{10}, 0, 3)
 		w.srv.NoFaultsLeft = true
+		for _, q := range sc.Reqs {
+			if strings.HasPrefix(q.Kind, "push") {
+				// two local models under registry names that share their first layer (3 upload parts)
+				w.srv.UploadRedirect = sc.Redirect
+				shared := ztData(10, 5)
+				zw.storeLocal("reg.test/lib/up:tag", [][]byte{shared}, ztData(2, 6), "")
+				zw.storeLocal("reg.test/lib/up2:tag", [][]byte{shared, ztData(3, 7)}, nil, "")
+				break
+			}
+		}
 		for _, n := range sc.Loaded {
 			w.do(z15Req{Kind: "generate", A: n})
 			mcrt.WaitIdle(false)
@@ -277,6 +316,10 @@ func z15Scenarios(thorough bool) []z15Scenario {
 		{Name: "delete|show", Cap: 1, Reqs: []z15Req{{Kind: "delete", A: "a"}, {Kind: "show", A: "a"}}},
 		{Name: "create|delete-sharing", Cap: 1, Reqs: []z15Req{{Kind: "create", A: "c", B: ""}, {Kind: "delete", A: "a"}}},
 		{Name: "pull|pull", Cap: 1, Reqs: []z15Req{{Kind: "pull"}, {Kind: "pull"}}},
+		{Name: "pull-gone", Cap: 2, Reqs: []z15Req{{Kind: "pull-gone"}}},
+		{Name: "push-gone", Cap: 2, Reqs: []z15Req{{Kind: "push-gone", A: "reg.test/lib/up:tag"}}},
+		{Name: "push-gone redirect", Cap: 1, Redirect: true, Reqs: []z15Req{{Kind: "push-gone", A: "reg.test/lib/up:tag"}}},
+		{Name: "push|push", Cap: 1, Reqs: []z15Req{{Kind: "push", A: "reg.test/lib/up:tag"}, {Kind: "push", A: "reg.test/lib/up2:tag"}}},
 	}
 	if thorough {
 		l = append(l,
@@ -284,6 +327,8 @@ func z15Scenarios(thorough bool) []z15Scenario {
 			z15Scenario{Name: "generate-a|generate-b|ps max1", Env: map[string]string{"OLLAMA_MAX_LOADED_MODELS": "1"}, Reqs: []z15Req{{Kind: "generate", A: "a"}, {Kind: "generate", A: "b"}, {Kind: "ps"}}},
 			z15Scenario{Name: "create|copy|delete", Reqs: []z15Req{{Kind: "create", A: "c", B: "S1"}, {Kind: "copy", A: "a", B: "c"}, {Kind: "delete", A: "c"}}},
 			z15Scenario{Name: "pull|tags", Reqs: []z15Req{{Kind: "pull"}, {Kind: "tags"}}},
+			z15Scenario{Name: "push-gone|push", Redirect: true, Reqs: []z15Req{{Kind: "push-gone", A: "reg.test/lib/up:tag"}, {Kind: "push", A: "reg.test/lib/up2:tag"}}},
+			z15Scenario{Name: "pull-gone|pull", Reqs: []z15Req{{Kind: "pull-gone"}, {Kind: "pull"}}},
 			z15Scenario{Name: "chat|chat|ps", Reqs: []z15Req{{Kind: "chat", A: "a"}, {Kind: "chat", A: "a"}, {Kind: "ps"}}},
 		)
 	}
